@@ -38,7 +38,7 @@ class Instance:
     def __init__(self, name, harness, defines=None, unwind=10, unwindset=None, flags=None,
                  envs=("libc_model.c", "vfs_cbmc.c"), timeout=600, mem_gb=12, functions="",
                  bounds="", leak_check=False, native=True, expect_reach=None, extra_src=(), native_src=("vfs_native.c",),
-                 native_timeout=20, sample_decoder=None):
+                 native_timeout=20, sample_decoder=None, gen_files=None):
         self.name = name
         self.harness = harness
         self.defines = dict(defines or {})
@@ -57,6 +57,8 @@ class Instance:
         self.native_src = list(native_src)
         self.native_timeout = native_timeout
         self.sample_decoder = sample_decoder
+        self.gen_files = dict(gen_files or {})
+        self.functional_only = False
 
 
 def dflags(defs):
@@ -163,11 +165,17 @@ class InstanceRun:
         self.cmdline = ""
 
     # ---- build ----
+    def write_gen(self):
+        for fn, text in self.inst.gen_files.items():
+            with open(os.path.join(self.dir, fn), "w") as f:
+                f.write(text)
+
     def build_goto(self):
         i = self.inst
+        self.write_gen()
         srcs = [os.path.join(HARN, i.harness)] + [os.path.join(ENV, e) for e in i.envs] + i.extra_src
         gb = os.path.join(self.dir, "h.gb")
-        cmd = ["goto-cc"] + GOTOCC_BASE + dflags(i.defines) + srcs + ["-o", gb]
+        cmd = ["goto-cc"] + GOTOCC_BASE + ["-I" + self.dir] + dflags(i.defines) + srcs + ["-o", gb]
         rc, out, err, t = run(cmd, timeout=300)
         if rc != 0:
             self.notes.append("goto-cc failed: " + err[-2000:])
@@ -180,7 +188,8 @@ class InstanceRun:
         i = self.inst
         exe = os.path.join(self.dir, "native")
         srcs = [os.path.join(HARN, i.harness)] + [os.path.join(ENV, e) for e in i.native_src]
-        cmd = NATIVE_BASE + dflags(i.defines) + srcs + ["-o", exe, "-lm"]
+        self.write_gen()
+        cmd = NATIVE_BASE + ["-I" + self.dir] + dflags(i.defines) + srcs + ["-o", exe, "-lm"]
         rc, out, err, t = run(cmd, timeout=300)
         if rc != 0:
             self.native_err = err[-3000:]
@@ -231,7 +240,13 @@ class InstanceRun:
         cmd = ["cbmc", gb, "--unwind", str(i.unwind)]
         if uws:
             cmd += ["--unwindset", ",".join(uws)]
-        cmd += CBMC_BASE + i.flags
+        base = list(CBMC_BASE)
+        if getattr(i, "functional_only", False):
+            # functional harness: the memory-safety obligations are decided by the C04 harnesses on the same code
+            base = ["--unwinding-assertions", "--no-malloc-may-fail", "--drop-unused-functions", "--object-bits", "12",
+                    "--no-pointer-check", "--no-bounds-check", "--no-pointer-primitive-check", "--no-div-by-zero-check",
+                    "--no-signed-overflow-check", "--no-undefined-shift-check", "--no-built-in-assertions"]
+        cmd += base + i.flags
         if i.leak_check:
             cmd += ["--memory-leak-check"]
         cmd += ["--trace", "--json-ui", "--verbosity", "8"]
@@ -474,7 +489,7 @@ def run_property(prop_id, tier, instances, level="model_checking", assumptions=N
             else:
                 os.makedirs(dst, exist_ok=True)
             with open(os.path.join(dst, "failure.json"), "w") as fh:
-                json.dump({"instance": r.inst.name, "harness": r.inst.harness, "defines": r.inst.defines,
+                json.dump({"instance": r.inst.name, "harness": r.inst.harness, "defines": r.inst.defines, "gen_files": r.inst.gen_files,
                            "failure": {k: v for k, v in f.items() if k != "stderr"}, "stderr": f.get("stderr", ""),
                            "replay_cmd": "%s/check %s --replay %s" % (VERIF, prop_id, dst)}, fh, indent=1)
         except Exception as e:
@@ -558,7 +573,7 @@ def run_property(prop_id, tier, instances, level="model_checking", assumptions=N
 def replay_dir(path):
     """Re-run a persisted counterexample against the library built from /repo's current tree."""
     meta = json.load(open(os.path.join(path, "failure.json")))
-    inst = Instance(meta["instance"], meta["harness"], meta["defines"])
+    inst = Instance(meta["instance"], meta["harness"], meta["defines"], gen_files=meta.get("gen_files"))
     work = tempfile.mkdtemp(prefix="verif-replay-")
     r = InstanceRun(inst, work, "replay")
     inp = open(os.path.join(path, "input.bin"), "rb").read() if os.path.exists(os.path.join(path, "input.bin")) else bytes.fromhex(meta["failure"].get("input_hex", ""))
